@@ -4,11 +4,13 @@ sources + flags + arguments) of the quick and thorough tiers.  DESIGN.md §4."""
 CHECKS = {}
 
 
-def tree_job(kind, name, n, iters=0, tear=0, inv=1, san='', unpacked=False, deadline=None):
+def tree_job(kind, name, n, iters=0, tear=0, inv=1, san='', unpacked=False, deadline=None, uchar=False):
     defs = ['-DTREE_%s' % kind.upper()]
-    bn = '%s%s%s' % (kind, '-asan' if san else '', '-unpacked' if unpacked else '')
+    bn = '%s%s%s%s' % (kind, '-asan' if san else '', '-unpacked' if unpacked else '', '-uchar' if uchar else '')
     if unpacked:
         defs.append('-DA_SIZE_POINTER=1')
+    if uchar:
+        defs.append('-funsigned-char')  # plain char unsigned (ARM / PowerPC / RISC-V ABIs)
     args = ['--n', n, '--iters', iters, '--tear', tear, '--inv', inv]
     if deadline:
         args += ['--deadline', deadline]
@@ -19,22 +21,26 @@ def c01_jobs(tier):
     if tier == 'quick':
         return [tree_job('avl', 'avl-packed-n18', 18, deadline=100),
                 tree_job('avl', 'avl-packed-asan-n13', 13, san='asan', deadline=100),
-                tree_job('avl', 'avl-unpacked-n14', 14, unpacked=True, deadline=100)]
+                tree_job('avl', 'avl-unpacked-n14', 14, unpacked=True, deadline=100),
+                tree_job('avl', 'avl-unpacked-uchar-n12', 12, unpacked=True, uchar=True, deadline=100)]
     return [tree_job('avl', 'avl-packed-n27', 27, deadline=2400),
             tree_job('avl', 'avl-packed-asan-n20', 20, san='asan', deadline=2400),
             tree_job('avl', 'avl-unpacked-n25', 25, unpacked=True, deadline=2400),
-            tree_job('avl', 'avl-unpacked-asan-n18', 18, unpacked=True, san='asan', deadline=2400)]
+            tree_job('avl', 'avl-unpacked-asan-n18', 18, unpacked=True, san='asan', deadline=2400),
+            tree_job('avl', 'avl-unpacked-uchar-n20', 20, unpacked=True, uchar=True, deadline=2400)]
 
 
 def c02_jobs(tier):
     if tier == 'quick':
         return [tree_job('rbt', 'rbt-packed-n15', 15, deadline=100),
                 tree_job('rbt', 'rbt-packed-asan-n11', 11, san='asan', deadline=100),
-                tree_job('rbt', 'rbt-unpacked-n12', 12, unpacked=True, deadline=100)]
+                tree_job('rbt', 'rbt-unpacked-n12', 12, unpacked=True, deadline=100),
+                tree_job('rbt', 'rbt-unpacked-uchar-n10', 10, unpacked=True, uchar=True, deadline=100)]
     return [tree_job('rbt', 'rbt-packed-n24', 24, deadline=2400),
             tree_job('rbt', 'rbt-packed-asan-n17', 17, san='asan', deadline=2400),
             tree_job('rbt', 'rbt-unpacked-n22', 22, unpacked=True, deadline=2400),
-            tree_job('rbt', 'rbt-unpacked-asan-n16', 16, unpacked=True, san='asan', deadline=2400)]
+            tree_job('rbt', 'rbt-unpacked-asan-n16', 16, unpacked=True, san='asan', deadline=2400),
+            tree_job('rbt', 'rbt-unpacked-uchar-n18', 18, unpacked=True, uchar=True, deadline=2400)]
 
 
 def c03_jobs(tier):
@@ -221,13 +227,14 @@ def c07_jobs(tier):
             str_job('length', 'oom-str-length', 40 if q else 72, faults=1, deadline=D),
             seq_job('vec', 'oom-vec-asan', 3 if q else 4, 3, 1, san='asan', faults=1, deadline=D),
             lists_job('que', 'oom-que-asan', 4 if q else 5, 4, 9, 2, san='asan', faults=1, deadline=D),
-            str_job('rich', 'oom-str-asan', 3 if q else 5, 4, san='asan', faults=1, deadline=D)]
+            str_job('rich', 'oom-str-asan', 3 if q else 5, 4, san='asan', faults=1, deadline=D)] + \
+        grid_jobs('oom-default-allocator', 'harness/alloc.cpp', ['src/a.c', 'src/vec.c', 'src/str.c', 'src/utf.c', 'src/que.c', 'src/buf.c'], 'quick', 1)
 
 
 CHECKS['C07'] = {
     'title': 'allocation failure never corrupts a container or leaks memory', 'level': 'fault_enumeration', 'jobs': c07_jobs, 'engine': 'xs',
     'rule': ('allocator fault enumeration layered on the explicit-state explorations of vector, buffer, queue and string: for EVERY reachable state, EVERY operation of the menu that allocates, '
-             'EVERY allocation request index k made by the library during that operation, and both fault modes (request k only; request k and all later ones) the real operation is executed with the fault injected through the public a_alloc seam. '
+             'EVERY allocation request index k made by the library during that operation, and both fault modes (request k only; request k and all later ones) the real operation is executed with the fault injected through the public a_alloc seam. The library\'s DEFAULT allocator (a_alloc_), which that seam bypasses, is driven separately with malloc/realloc/free interposed (harness/alloc.cpp): its contract and vector/string/queue/buffer histories with each C-library request in turn failing. '
              'Required: failure reported through the return value (null / A_OMEMORY / ~0 / 0 for catf), container still holds exactly its previous contents and all invariants, the same operation retried with a healthy allocator succeeds and reaches '
              'the fault-free successor, and after destroying the container the ledger is empty with no double free. Because a failed operation must be a self-loop on the state, the single-step check from every reachable state covers histories with any number of faults at any positions. '
              'evaluations = transitions executed (fault-free + faulted); distinct_nontrivial = distinct reachable container states from which faults were injected; fault_runs = faulted executions.'),
@@ -340,6 +347,8 @@ def c09_jobs(tier):
     jobs += grid_jobs('matk-f32', 'harness/matk.cpp', src, tier, 4, defs=['-DA_SIZE_REAL=4'])
     jobs += grid_jobs('matk-f64-asan', 'harness/matk.cpp', src, tier, 4, san='asan')
     jobs += grid_jobs('matk-f32-asan', 'harness/matk.cpp', src, tier, 2, defs=['-DA_SIZE_REAL=4'], san='asan')
+    # long double reals, with operands that need more than double precision (a detour through a narrower type is visible only here)
+    jobs += grid_jobs('matk-ld', 'harness/matk.cpp', src, tier, 2, defs=['-DA_SIZE_REAL=16'])
     return jobs
 
 
@@ -362,6 +371,8 @@ def c15_jobs(tier):
     jobs = grid_jobs('tpoly-f64', 'harness/tpoly.cpp', src, tier, 16, libs=libs)
     jobs += grid_jobs('tpoly-f32', 'harness/tpoly.cpp', src, tier, 8, defs=['-DA_SIZE_REAL=4'], libs=libs)
     jobs += grid_jobs('tpoly-f64-inline', 'harness/tpoly.cpp', src, 'quick', 4, defs=['-DA_HAVE_INLINE=1'], libs=libs)
+    # long double reals: a constant or an intermediate kept in double precision shows only here
+    jobs += grid_jobs('tpoly-ld', 'harness/tpoly.cpp', src, 'quick', 8, defs=['-DA_SIZE_REAL=16'], libs=libs)
     jobs += cxx_jobs('poly', src)
     return jobs
 
